@@ -1,4 +1,143 @@
+import LdarModel.Model.Planner
 import LdarModel.Driver.Proto
-/- driver stub: replaced by the component's real driver -/
-open LdarModel.Proto
-def main : IO Unit := runDriver (fun (_ : Unit) (_ : List String) => ((), "bad-op")) ()
+/-
+Driver for the schedule model (queue + planners + scheduled day), serving C06 and C07.
+
+  new <kind r|s|f> <crews> <cap> <sy> <sm> <sd> <ey> <em> <ed> [[site,freq|-1,deploy,S,[months],[years],[[m,d],..]],..]
+      -> ok [[site,rs,[depYears],[simYears]],..]
+  day <y> <m> <d> [[site,code,minutes],..]        code 0 completed, 1 progressed, 2 untouched
+      -> c=<crashed> i=[issued] p=[plan] t=[[site,minutesToday],..] q=[[cls,rate,site],..] s=[[site,queued,[[y,done],..],rep],..]
+         rep = - | [inProgress,surveyed];  for follow-up schedules `done` is [[0,completions]]
+  add <cls> <site> <rate>                         -> q=[..]
+  redetect <site> <rate> <cls>                    -> c=<crashed> q=[..]
+  gen-years <sy> <sm> <sd> <ey> <em> <ed>         -> [simulation years]
+-/
+open LdarModel LdarModel.Sched LdarModel.Proto
+
+structure DState where
+  cfg : Option Cfg := none
+  st : State := {}
+
+def showNatList (l : List Nat) : String := showList toString l
+
+def showRep : Option Report → String
+  | none => "-"
+  | some r => s!"[{showBool r.inProgress},{r.surveyed}]"
+
+def showQueue (q : Queue) : String :=
+  showList (fun (e : Entry) => s!"[{e.cls},{e.rate},{e.site}]") q.entries
+
+def showPlanner (c : Cfg) (s : State) (i : Nat) : String :=
+  let p := c.P i
+  let ps := s.pl i
+  let dn := match c.kind with
+    | .followup => s!"[[0,{ps.log.length}]]"
+    | _ => showList (fun (y : Nat) => s!"[{y},{done ps y}]") p.simYears
+  s!"[{i},{showBool ps.queued},{dn},{showRep ps.rep}]"
+
+def showState (c : Cfg) (s : State) : String :=
+  s!"q={showQueue s.q} s={showList (showPlanner c s) c.sites}"
+
+def parsePair (s : String) : Option (Nat × Nat) := do
+  match ← natList? s with
+  | [a, b] => some (a, b)
+  | _ => none
+
+structure SiteCfg where
+  site : Nat
+  freq : Option Nat
+  deploy : Bool
+  surveyTime : Int
+  months : List Nat
+  years : List Nat
+  plan : List (Nat × Nat)
+
+def parseSite (s : String) : Option SiteCfg := do
+  match ← splitTop s with
+  | [a, f, dp, st, ms, ys, pl] =>
+    let site ← nat? a
+    let fi ← int? f
+    let deploy ← bool? dp
+    let st ← int? st
+    let ms ← natList? ms
+    let ys ← natList? ys
+    let pl ← listOf? parsePair pl
+    some { site := site, freq := if fi < 0 then none else some fi.toNat, deploy := deploy,
+           surveyTime := st, months := ms, years := ys, plan := pl }
+  | _ => none
+
+def parseOutcome (s : String) : Option (Nat × Outcome) := do
+  match ← intList? s with
+  | [a, code, m] =>
+    if a < 0 then none
+    else if code = 0 then some (a.toNat, .completed)
+    else if code = 1 then some (a.toNat, .progressed m)
+    else if code = 2 then some (a.toNat, .untouched)
+    else none
+  | _ => none
+
+def lookupOutcome (l : List (Nat × Outcome)) (i : Nat) : Outcome :=
+  match l.find? (fun x => x.1 = i) with
+  | some x => x.2
+  | none => .untouched
+
+def parseKind : String → Option Kind
+  | "r" => some .routine
+  | "s" => some .stationary
+  | "f" => some .followup
+  | _ => none
+
+def step (ds : DState) (toks : List String) : DState × String :=
+  match toks with
+  | ["new", k, crews, cap, sy, sm, sd, ey, em, ed, sites] =>
+    match parseKind k, nat? crews, int? cap, nat? sy, nat? sm, nat? sd, nat? ey, nat? em, nat? ed,
+          listOf? parseSite sites with
+    | some k, some crews, some cap, some sy, some sm, some sd, some ey, some em, some ed, some sites =>
+      let s : Date := { y := sy, m := sm, d := sd }
+      let e : Date := { y := ey, m := em, d := ed }
+      let ps : List (Nat × PlannerP) := sites.map (fun sc =>
+        (sc.site, mkPlannerP (k == .stationary) sc.freq sc.deploy sc.months sc.years sc.plan sc.surveyTime s e))
+      let P : Nat → PlannerP := fun i =>
+        match ps.find? (fun x => x.1 = i) with
+        | some x => x.2
+        | none => {}
+      let c : Cfg := { kind := k, crews := crews, cap := cap.toNat, sites := sites.map (·.site), P := P }
+      let echo := showList (fun (x : Nat × PlannerP) =>
+        s!"[{x.1},{x.2.rs},{showNatList x.2.depYears},{showNatList x.2.simYears}]") ps
+      ({ cfg := some c, st := init }, "ok " ++ echo)
+    | _, _, _, _, _, _, _, _, _, _ => (ds, "bad-op")
+  | ["day", y, m, d, outs] =>
+    match ds.cfg, nat? y, nat? m, nat? d, listOf? parseOutcome outs with
+    | some c, some y, some m, some d, some outs =>
+      let din : DayIn := { date := { y := y, m := m, d := d }, out := lookupOutcome outs }
+      let tr := dayTrace c din ds.st
+      if tr.keys.any (fun i => !(outs.any (fun x => x.1 = i))) then
+        (ds, s!"missing-outcome p={showNatList tr.keys}")
+      else
+        let s1 := requestPhase c din.date ds.st
+        let s' := scheduleDay c din ds.st
+        let today := showList (fun (i : Nat) =>
+          s!"[{i},{minutesToday (c.P i) (din.out i) (s1.pl i)}]") tr.keys
+        ({ ds with st := s' },
+          s!"c={showBool s'.crashed} i={showNatList tr.issued} p={showNatList tr.keys} t={today} {showState c s'}")
+    | _, _, _, _, _ => (ds, "bad-op")
+  | ["add", cls, site, rate] =>
+    match ds.cfg, nat? cls, nat? site, int? rate with
+    | some _, some cls, some site, some rate =>
+      let s' := fuAdd cls site rate ds.st
+      ({ ds with st := s' }, s!"q={showQueue s'.q}")
+    | _, _, _, _ => (ds, "bad-op")
+  | ["redetect", site, rate, cls] =>
+    match ds.cfg, nat? site, int? rate, nat? cls with
+    | some _, some site, some rate, some cls =>
+      let s' := fuRedetect site rate cls ds.st
+      ({ ds with st := s' }, s!"c={showBool s'.crashed} q={showQueue s'.q}")
+    | _, _, _, _ => (ds, "bad-op")
+  | ["gen-years", sy, sm, sd, ey, em, ed] =>
+    match nat? sy, nat? sm, nat? sd, nat? ey, nat? em, nat? ed with
+    | some sy, some sm, some sd, some ey, some em, some ed =>
+      (ds, showNatList (simYearsOf { y := sy, m := sm, d := sd } { y := ey, m := em, d := ed }))
+    | _, _, _, _, _, _ => (ds, "bad-op")
+  | _ => (ds, "bad-op")
+
+def main : IO Unit := runDriver step {}
